@@ -1,10 +1,20 @@
 """C12 - LDM behaves as a store of objects with registration gating and expiry.
 
-Decides: which state each IF.LDM.3 / IF.LDM.4 operation may and must touch (transitive write effects); that every
-store-mutating call is gated by registration; that an update replaces only the record's content member; that results
-tested for success can be successes; that the stored record is fed by the same-named attributes of the request;
-identifier allocation discipline; the expiry predicate and the reactive trigger.
-Does not decide equivalence with a map model over histories, nor expiry timing.
+Decides: which state each IF.LDM.3 / IF.LDM.4 operation may and must touch (effects: transitive write sets over store,
+id counter and the two registries - add / update / delete reach the store and leave the registries alone, registration
+touches only its own registry, a query writes nothing); that every store-mutating service call sits under
+`application_id in <provider registry getter>()` and every query under the consumer one, and registry cache coherence:
+when a getter answers from a cached view, every method that changes the registry resets that view (gated); that an
+update replaces only the record's content member, on both back-ends (update-scope); that results tested for success
+can be successes - the tested callee does not return None on every path (dead-success); that every key of the stored
+record is fed by the same-named attribute of the request (record-faithful); identifier allocation (ids: id = counter,
+then counter += 1, never derived from the store's size; no other method and nothing outside the store class writes
+the counter); expiry: an object is deleted exactly under `now > timestamp + validity * 1000`, and it is the object the
+scan examines; both maintenance scans range over get_all_data_containers() with no break / return, so no object is
+skipped (scan-is-complete); collect_trash runs the time-validity check on every normal exit; the reactive maintenance
+collects trash from add_provider_data under the rate limit at most; that the area-of-maintenance check never deletes
+under a true `compare_with_int` (object inside the area) (area).
+Does not decide equivalence with a map model over histories, expiry timing, TinyDB internals beyond its update scope.
 """
 from __future__ import annotations
 
